@@ -4,7 +4,7 @@ from vlib.runner import Batch
 ID = "C15"
 LEAN_PROPS = ["FcpptProofs.Props.C15"]
 HARNESS = {"src": "harness/c15.cpp", "repo_srcs": [
-    "libs/core/src/endianness/reverse_mem.cpp",
+    "libs/core/src/endianness/reverse_mem.cpp", "libs/core/src/insert_extract_locale.cpp",
 ]}
 TIE = "hand-written model (FcpptModel/Model/C15/*.lean) + differential correspondence against the real templates and .cpp files"
 RULE = ""
@@ -66,13 +66,61 @@ def hexs(bs):
     return "".join("%02x" % b for b in bs) if bs else "-"
 
 
+def hx(text):
+    """text: str or bytes -> hex token"""
+    if isinstance(text, str):
+        text = text.encode("latin-1")
+    return text.hex() if text else "-"
+
+
+def all_strings(alpha, maxlen):
+    out = [""]
+    layer = [""]
+    for _ in range(maxlen):
+        layer = [w + c for w in layer for c in alpha]
+        out += layer
+    return out
+
+
+NUM_DESTS = ["u16", "i16", "u32", "i32", "u64", "i64"]
+CHAR_DESTS = ["c8", "u8", "i8"]
+ENUMS = {1: ["test1", "test2", "test3"], 2: ["foo", "bar", "baz", "fo", "foobar"], 3: ["a", "b", "a"], 4: ["only"]}
+VEC_TYPES = ["i32", "i64", "u16", "u32"]
+
+
+def num_texts(r, ty, count):
+    """texts around the accept/reject boundaries of num_get for destination ty"""
+    lo, hi = trange(ty)
+    bits = INT_TYPES[ty][0]
+    out = []
+    interesting = [lo, hi, lo - 1, hi + 1, -hi, -hi - 1, -hi - 2, 0, 1, -1, 10 * hi, hi // 10, hi // 10 + 1, (1 << bits) - 1, 1 << bits,
+                   -(1 << bits), -(1 << bits) + 1, (1 << 63) - 1, 1 << 63, (1 << 63) + 1, -(1 << 63), -(1 << 63) - 1, (1 << 64) - 1, 1 << 64,
+                   -(1 << 64) + 1, -(1 << 64), 10 ** 19, 10 ** 20 - 1, 10 ** 25]
+    for v in interesting:
+        out.append(str(v))
+        if v >= 0:
+            out.append("+" + str(v))
+    for _ in range(count):
+        v = r.choice(interesting) + r.range(-3, 3) if r.chance(1, 2) else rand_val(r, ty)
+        body = str(abs(v))
+        if r.chance(1, 4):
+            body = "0" * r.range(1, 25) + body
+        sign = "-" if v < 0 else r.choice(["", "", "+"])
+        pre = r.choice(["", "", "", " ", "\t\n ", "\v\f\r", "  "])
+        post = r.choice(["", "", "", "", " ", "x", ".", ",", "\n", "e1", "\x00", "-", "+"])
+        if r.chance(1, 10):
+            sign = r.choice(["--", "+-", "-+", "- ", "+ "])
+        out.append(pre + sign + body + post)
+    return out
+
+
 def nontrivial(op, result):
     return result != "bad-op" and op != "native"
 
 
 def weight(op):
     t = op.split()
-    if t[0] == "bins":
+    if t[0] == "bins" or t[0] == "rtds":
         return int(t[4])
     return 1
 
@@ -82,6 +130,9 @@ def refine(op):
     if t[0] == "bins":
         lo, n = int(t[3]), int(t[4])
         return [f"bin {t[1]} {t[2]} {v}" for v in range(lo, lo + n)]
+    if t[0] == "rtds":
+        lo, n = int(t[3]), int(t[4])
+        return [f"rtd {t[1]} {t[2]} {v}" for v in range(lo, lo + n)]
     return None
 
 
@@ -128,6 +179,111 @@ def batches(rng, tier):
     for n in (31, 32, 33, 64, 127):
         ops.append("revmem " + hexs([r.below(256) for _ in range(n)]))
     yield Batch("reverse-mem", ops, note="reverse_mem on exact-size heap buffers of every length 0..19 and some longer ones")
+
+    # ---------------------------------------------------------------- decimal text
+    ops = []
+    for ty in CHAR_DESTS:
+        lo = -128 if ty != "u8" else 0
+        ops.append(f"rtds N {ty} {lo} 256")
+    for ty in ("u16", "i16"):
+        lo, hi = trange(ty)
+        for w in "NW":
+            for a in range(lo, hi + 1, 2048):
+                ops.append(f"rtds {w} {ty} {a} 2048")
+    yield Batch("text-8-16-exhaustive", ops, exhaustive=True,
+                note="output_to_std_(w)string then extract_from_string for every 8-bit (character types) and 16-bit integer")
+    r = rng.fork("text")
+    ops = []
+    for ty in ("u32", "i32", "u64", "i64"):
+        for w in "NW":
+            for v in lattice(ty):
+                ops.append(f"rtd {w} {ty} {v}")
+            for _ in range(1500 if thorough else 250):
+                ops.append(f"rtd {w} {ty} {rand_val(r, ty)}")
+    yield Batch("text-32-64-lattice-random", ops, note="decimal round trip on the boundary lattice and seeded random 32/64-bit integers, narrow and wide strings")
+    # all short texts over a small alphabet: what extract_from_string accepts and rejects
+    ops = []
+    small = all_strings(" -+019x", 4 if thorough else 3)
+    for ty in NUM_DESTS:
+        for t_ in small:
+            ops.append(f"efs N {ty} {hx(t_)}")
+    for ty in CHAR_DESTS:
+        for t_ in all_strings(" a\n\x80", 3):
+            ops.append(f"efs N {ty} {hx(t_)}")
+    yield Batch("extract-short-texts", ops, exhaustive=True,
+                note="extract_from_string on every text over {space,-,+,0,1,9,x} up to length 3 (thorough: 4) for every numeric destination, and over {space,a,newline,0x80} for the character types")
+    ops = []
+    for ty in NUM_DESTS:
+        for t_ in num_texts(r, ty, 1200 if thorough else 200):
+            ops.append(f"efs {r.choice('NW')} {ty} {hx(t_)}")
+    yield Batch("extract-malformed", ops, note="overflow boundaries of every destination type (max, max+1, -max-1, 2^64 ...), leading zeros, signs, whitespace before / garbage behind")
+    # ---------------------------------------------------------------- enums
+    ops = []
+    for k, names in ENUMS.items():
+        for e in range(len(names)):
+            ops.append(f"enum {k} {e}")
+        cands = set()
+        for n in names:
+            cands.update([n, n[:-1], n + "x", n.upper(), " " + n, n + " ", n[1:], n + n])
+        cands.update(["", "x", "\x00"])
+        for c in sorted(cands):
+            ops.append(f"efrom {k} {hx(c)}")
+    yield Batch("enum-all-enumerators", ops, exhaustive=True, note="to_string/from_string/stream output/input for every enumerator of the four test enums (one with a duplicated name); from_string on near misses")
+    ops = []
+    for _ in range(1500 if thorough else 300):
+        k = r.choice(list(ENUMS))
+        names = ENUMS[k]
+        parts = []
+        for _ in range(r.range(0, 6)):
+            w = r.choice(names)
+            if r.chance(1, 6):
+                w = r.choice([w[:-1], w + "x", w.upper(), "", "\x00" + w, w + "\x00", "zz"])
+            parts.append(r.choice(["", " ", "\n", "\t ", "  "]) + w)
+        text = r.choice([" ", "\n", "\t"]).join(parts) + r.choice(["", "", " ", "\n"])
+        ops.append(f"ein {k} {hx(text)}")
+    yield Batch("enum-stream-input", ops, note="repeated stream input of enumerator names separated by whitespace, with unknown words, NULs and near misses")
+    # ---------------------------------------------------------------- vectors / dims
+    ops = []
+    for ty in VEC_TYPES:
+        lo, hi = trange(ty)
+        alpha = sorted({lo, -1 if lo < 0 else 1, 0, 7, 10, hi})
+        for n in range(1, 5):
+            vs_all = [[]]
+            for _ in range(n):
+                vs_all = [v + [a] for v in vs_all for a in alpha]
+            for vs in vs_all:
+                ops.append(f"vec {ty} {n} " + ",".join(map(str, vs)))
+    yield Batch("vector-small-exhaustive", ops, exhaustive=True, note="output then input of every vector/dim of length 1..4 over {min,-1|1,0,7,10,max} for int, long, unsigned short, unsigned")
+    ops = []
+    short = all_strings("(),1- ", 5 if thorough else 4)
+    for n in (1, 2):
+        for t_ in short:
+            ops.append(f"vin i32 {n} {hx(t_)}")
+    yield Batch("vector-input-short-texts", ops, exhaustive=True, note="stream >> vector<int,1|2> on every text over {( ) , 1 - space} up to length 4 (thorough: 5)")
+    ops = []
+    for _ in range(3000 if thorough else 500):
+        ty = r.choice(VEC_TYPES)
+        n = r.range(1, 4)
+        vs = [rand_val(r, ty) for _ in range(n)]
+        text = "(" + ",".join(map(str, vs)) + ")"
+        k = r.below(8)
+        if k == 0 and len(text) > 1:
+            i = r.below(len(text)); text = text[:i] + text[i + 1:]
+        elif k == 1:
+            i = r.below(len(text) + 1); text = text[:i] + r.choice([" ", "\n", ",", "(", ")", "x", "-", "+", "0"]) + text[i:]
+        elif k == 2:
+            text = text.replace(",", r.choice([" , ", ", ", " ,", ";", ",,", " "]))
+        elif k == 3:
+            text = text + r.choice([" ", "x", ")", "(1)", ",1"])
+        elif k == 4:
+            text = r.choice([" ", "\n\t", "x"]) + text
+        elif k == 5:
+            lo, hi = trange(ty)
+            text = "(" + ",".join(str(r.choice([lo - 1, hi + 1, hi, lo, 10 ** 30])) for _ in range(n)) + ")"
+        elif k == 6:
+            text = text[:r.below(len(text) + 1)]
+        ops.append(f"vin {ty} {r.choice([n, n, n, r.range(1, 4)])} {hx(text)}")
+    yield Batch("vector-input-malformed", ops, note="mutated vector texts: missing/extra characters, whitespace, out-of-range elements, truncated text, wrong dimension")
 
 
 MANIFEST = {
